@@ -183,10 +183,25 @@ func worker(id, tier string, idx, W int, seed int64, out string) {
 	wo := &WorkerOut{Stats: NewStats(), KnownHits: map[int]int64{}, KnownEx: map[int]string{}}
 	ctx := &EvalCtx{Stats: wo.Stats}
 
+	// optional event log for the determinism self-proof (tools/determinism.sh):
+	// one line per evaluated case = hash of the case + digest of every history
+	var dlog *os.File
+	if p := os.Getenv("VERIF_DIGEST_LOG"); p != "" {
+		f, err := os.Create(fmt.Sprintf("%s.%d", p, idx))
+		if err != nil {
+			fatal2("%v", err)
+		}
+		dlog = f
+		defer f.Close()
+	}
 	// evaluate returns the violations not covered by a known finding
 	evaluate := func(cs *Case, st *Stats) []Violation {
 		ctx.Stats = st
 		vs := prop.Eval(cs, ctx)
+		if dlog != nil && st != nil {
+			cj, _ := json.Marshal(cs)
+			fmt.Fprintf(dlog, "%016x %s %d\n", hash64(string(cj)), digestResults(ctx.Results), len(vs))
+		}
 		var unknown []Violation
 		for _, v := range vs {
 			if k := matchKnown(known, v); k >= 0 {
